@@ -75,7 +75,7 @@ Lemma some_differs_witness cfg h :
 Proof. intros E. apply existsb_exists. exact E. Qed.
 
 (* Run, RunCode, Run: the second Run starts the main code at the instruction pointer of the RunCode's code *)
-Definition h_run_runcode_run : list item := [rn (Lit 5) 0; rc (Lit 6) 0; rn (Lit 7) 0].
+Definition h_run_runcode_run : list item := [rn (Lit 5) 0; rc (ListN 3 (Lit 6)) 0; rn (Lit 7) 0].
 Theorem C07_refuted_run_after_runcode : exists h b, In b (exec0 cfg_current 0%Z h) /\ differs cfg_current b = true.
 Proof. exists h_run_runcode_run. apply some_differs_witness. vm_compute. reflexivity. Qed.
 Example C07_run_after_runcode_outcomes :
